@@ -91,9 +91,9 @@ CHECKS = {
              "saves): the collected store equals the later-write-wins replay of the program's save events (same failures, entries, order), nothing else is "
              "collected, the last save at a path is what is collected; the pre-repair code refines the same spec exactly on programs without a namespace "
              "open around a scan / name clashes with scan bodies (up to entry order); proved counterexamples for the pre-repair root merge. Tie: generated placements "
-             "(namespaces, nested scans, vmap/modular_vmap, overwrites, leaf mode) run eagerly, under jit and under seed: result vs unwrapped function, "
+             "(namespaces, nested scans, vmap/modular_vmap, overwrites, leaf mode, nested jax.jit / jax.checkpoint helpers as transparent blocks - a repaired defect: their saves were dropped) run eagerly, under jit and under seed: result vs unwrapped function, "
              "collected dict vs an independent reference and vs the compiled Lean model.",
-        note=TB + "C19: transparency of the wrapper and the batching of tag/namespace primitives under jax.vmap are runtime behaviour, checked by the correspondence only; save inside cond branches is outside the claim.",
+        note=TB + "C19: transparency of the wrapper and the batching of tag/namespace primitives under jax.vmap are runtime behaviour, checked by the correspondence only; nested jit / checkpoint blocks are spliced into the enclosing block for the Lean model (no call construct there); save inside cond branches is outside the claim; open finding state-dropped-in-uninterpreted-call (custom_jvp / custom_vjp / while_loop bodies).",
         technique="Lean 4 proof + differential correspondence on generated placements (eager/jit/seed)",
         design="§3 C19"),
     "C20": dict(
@@ -127,9 +127,10 @@ CHECKS = {
         text="Partial. Lean theorems about a decision model of JAX+pjax (placements of every depth): in the specification variant every site under a "
              "compiling construct raises the lowering (or batch) error, plain vmap raises, seed yields a function of the key or raises; the code as it "
              "is agrees with the specification on all placements without grad and without unbatched plain vmap; proved counterexamples for those two. "
-             "Tie: every placement up to depth 1 + sampled depth 2-3 (quick) / exhaustively to depth 3 (thorough), plain and ADEV site, executed on "
+             "The construct alphabet includes the higher-order primitives neither Seed nor modular_vmap interprets (jax.checkpoint; custom_jvp / custom_vjp, whose rule runs in place of the call below a grad - `relocate`): seed of a placement containing one raises (theorem, spec and - without grad / unbatched vmap - as-is), after two repairs of the code (Seed and modular_vmap re-bound such equations unchanged: key ignored / one draw for all lanes). "
+             "Tie: every placement over {jit, scan, while, fori static/dynamic, cond, switch, grad, vmap batched/unbatched, modular_vmap, checkpoint, custom_jvp} up to depth 1 + sampled depth 2-3 (quick) / exhaustively to depth 3 (thorough), a fixed custom_vjp family, plain and ADEV site, executed on "
              "real JAX with and without seed and compared with the model and with the property's requirement.",
-        note=TB + "C14 (partial): the model's rules are assumptions about JAX's tracing/lowering, re-validated by the enumeration only up to depth 3; two open known findings (grad inlines the sampler; unbatched plain vmap replicates).",
+        note=TB + "C14 (partial): the model's rules are assumptions about JAX's tracing/lowering, re-validated by the enumeration only up to depth 3; two open known findings (grad inlines the sampler; unbatched plain vmap replicates); an EAGER jax.checkpoint(f) of an unseeded f re-evaluates JAX's cached jaxpr (same draw every call) - nothing is compiled, so it is outside the statement and not judged.",
         technique="Lean 4 proof over a decision model + exhaustive bounded differential enumeration against real JAX",
         design="§3 C14"),
     "C09": dict(
@@ -170,7 +171,7 @@ CHECKS = {
         text="Partial. Lean theorem: for every straight-line deterministic program (const/add/sub/mul/neg/cond) and environment, the ADEV "
              "continuation-passing interpreter with the identity (or any final) continuation equals the forward-mode fold; second model (AdevDet2) of the interpreter's default branch: float / discrete values, symbolic-zero (float0) tangents, the zero-tangent fast path, multi-output equations with mixed outputs, call (pjit), fori/scan with mixed carries, cond: for every program and every lawful primitive table the interpreter (CPS or direct) returns the primal and tangent of forward mode; discrete outputs always carry the symbolic zero; fori = n-fold iteration; proved witnesses that the WRONG fast-path conditions (any input zero; any discrete output) give wrong tangents. Tie: a corpus of "
              "deterministic JAX programs (indexing, reductions, dot/transpose, int/bool/complex intermediates, casts, cond, scan/fori) over scalar, "
-             "array and pytree arguments: jvp_estimate / grad_estimate / estimate vs jax.jvp / jax.grad / f; random straight-line programs vs the "
+             "array and pytree arguments: jvp_estimate / grad_estimate / estimate vs jax.jvp / jax.grad / f; JAX library functions that carry their own derivative rule or wrap a sub-jaxpr (jax.nn.relu / relu6 / softplus / softmax, logsumexp, jax.checkpoint, user custom_jvp and custom_vjp with non-standard rules, also inside cond / scan) - a repaired defect: every custom_jvp_call raised NotImplementedError; random straight-line programs vs the "
              "Lean interpreter; random programs of the richer language (mixed-output helpers, scans with mixed carries, conds, zero-tangent and integer inputs) built both as JAX functions and as driver terms: jvp_estimate vs the model, vs jax.jvp, and the proved witnesses replayed on the implementation.",
         note=TB + "C15 (partial): the per-primitive JVP rules are assumed lawful (Prim.Lawful, checked against jax.jvp on every generated case); tangent shapes, complex values and dtype conversions are covered only by the corpus; three open findings (loud exceptions): adev-cond-output-count, adev-cond-literal-operand, adev-pjit-int-tangent.",
         technique="Lean 4 proof of the interpreter skeleton + differential corpus against jax.jvp / jax.grad",
@@ -189,7 +190,7 @@ CHECKS = {
              "puts the lane axis first for every sample_shape and lane count, the pre-repair rule only for empty sample_shape (proved "
              "counterexample); VALUE-LEVEL model of the sample batching rule (arrays, numpy broadcasting, positional / keyword binding, moving the mapped axes, one sampler call): for every signature, positional/keyword mix, in_axes, sample_shape and axis size, when the mapped parameters have the maximal per-lane rank lane i of the result IS what the un-mapped site draws from lane i's parameter slices at lane-specific, pairwise distinct positions of that one call; proved counterexamples for the two repaired defects (keyword rebound positionally; in_axes != 0 not moved) and for the OPEN differing-rank finding (silent mis-pairing / broadcast error); nests of maps agree with the one-level rule. Tie: modular_vmap(f) vs stacking f(slice_i) and vs jax.vmap for deterministic, log-density and sampling "
              "functions (parameter-revealing probe sampler) over in_axes {0,1,-1,2,None,tuples,pytrees}, axis_size given/inferred, sample_shape "
-             "sites, nested maps, scan/cond inside (also at control-flow depth 2, reverse scans); per-lane independence with real normals; Vmap/repeat combinator sums incl. keyword parameters; a structured probe sampler whose every entry reveals its position in the call and the parameter values it was drawn from, compared entry by entry with the Lean rule model for fixed and random sites (one level and nests) and with the un-mapped site.",
+             "sites, nested maps, scan/cond inside (also at control-flow depth 2, reverse scans); per-lane independence with real normals; sites wrapped in jax.checkpoint / custom_jvp / custom_vjp (top level, scan step, cond branch, with and without seed) must give independent lanes or raise - never one shared draw (a repaired defect); Vmap/repeat combinator sums incl. keyword parameters; a structured probe sampler whose every entry reveals its position in the call and the parameter values it was drawn from, compared entry by entry with the Lean rule model for fixed and random sites (one level and nests) and with the un-mapped site.",
         note=TB + "C08: open finding vmap-differing-rank (per-lane parameter shapes of differing rank raise or mis-pair); independence of lanes' draws is the sampler contract.",
         technique="Lean 4 proof (combinator corollaries + layout model) + differential correspondence against per-slice evaluation",
         design="§3 C08"),
